@@ -21,6 +21,12 @@ func (r *ParserRule) RunPass(ctx *Context, pass Pass) {
 	switch pass {
 	case CreateNames:
 		ctx.HasParserRules = true
+		if reservedTokenNames[r.Name] {
+			// EOF and ERROR name terminals: a rule of that name would be confused
+			// with them, e.g. 'ERROR?' and '@error?' share one helper rule.
+			ctx.Errs.Errorf(ctx.Position(r), "sorry, %q is a reserved name", r.Name)
+			return
+		}
 		if !ctx.RegisterName(r.Name, r) {
 			return
 		}
